@@ -251,6 +251,8 @@ func runC03(c *Ctx) {
 		}
 	}
 
+	checkExtRcodeSendable(c)
+
 	c.rule("R3", "RA is forced on every reply before packing", 1)
 	{
 		good := false
@@ -450,6 +452,7 @@ func runC03(c *Ctx) {
 	// ---------------------------------------------------------------- R8
 	c.rule("R8", "the cache key is injective in the question (a hit must carry the asker's own question)", 37)
 	checkCacheKeyLayout(c)
+	checkStoreAnswersQuestion(c)
 	// the second writer of the key -> answer table: a reloaded dump pairs each key with its own answer
 	checkDumpWriterPairing(c)
 	if rd := c.fn(relCachePlugin, "Cache", "readDump"); rd != nil {
@@ -459,6 +462,14 @@ func runC03(c *Ctx) {
 	// ---------------------------------------------------------------- R12
 	c.rule("R12", "what the cache stores shares no memory with the live response (a later plugin's in-place rewrite of the reply's question must not end up in the entry that answers another name)", 5)
 	checkCopyHelperDeep(c)
+
+	// ---------------------------------------------------------------- R15
+	c.rule("R15", "a stream server answers every query it has read: the connection is closed only after its in-flight handlers finished", 1)
+	checkStreamServerAnswersInflight(c)
+
+	// ---------------------------------------------------------------- R14
+	c.rule("R14", "a query that fits DNS also fits the DoH GET request: the HTTP server's header limit leaves room for the base64 query", 1)
+	checkHTTPHeaderLimit(c)
 
 	// ---------------------------------------------------------------- R13
 	c.rule("R13", "who may write a message's identity (id, question): only the known sites; a reply gets its question once", 18)
